@@ -21,6 +21,11 @@ LHas(r, f) == f \in DOMAIN r
 LRat(j)    == <<j[1], j[2]>>
 LSame(a, b) == RNorm(a) = RNorm(b)
 
+\* Lambda of one hyperedge, as LambdaG of HyMMSBM.tla but summed row by row: the recursive sums of HyMMSBM.tla are as deep
+\* as the set is large, and a hyperedge of 64 nodes has 2016 pairs
+LLambdaG(G, e) == LET Row(i) == LET T(j) == G[i][j] IN ISum(T, {j \in e : j > i}) IN ISum(Row, e)
+ASSUME \A e \in SUBSET (1..4) : LET G == [i \in 1..4 |-> [j \in 1..4 |-> i * j + i + j]] IN LLambdaG(G, e) = LambdaG(G, e)
+
 LInBounds(c) == /\ c.N \in 2..64 /\ Len(c.u) = c.N /\ Len(c.w) \in 1..3
                 /\ \A i \in DOMAIN c.u : Len(c.u[i]) = Len(c.w) /\ \A a \in DOMAIN c.u[i] : c.u[i][a] \in 0..3
                 /\ \A a \in DOMAIN c.w : Len(c.w[a]) = Len(c.w) /\ \A b \in DOMAIN c.w[a] : c.w[a][b] \in 0..3
@@ -34,7 +39,7 @@ C15LClauses(c) ==
   {<<"harness_bounds", LInBounds(c)>>}
   \cup (IF LHas(c, "pp") THEN
           {<<"poisson_params", /\ Len(c.pp) = Len(c.edges)
-                               /\ \A j \in DOMAIN c.edges : LSame(LRat(c.pp[j]), RInt(LambdaG(G, LRng(c.edges[j]))))>>} ELSE {})
+                               /\ \A j \in DOMAIN c.edges : LSame(LRat(c.pp[j]), RInt(LLambdaG(G, LRng(c.edges[j]))))>>} ELSE {})
   \cup (IF LHas(c, "kappa") THEN
           {<<"kappa", \A p \in LRng(c.kappa) : LSame(LRat(p[2]), RInt(Kappa(N, p[1])))>>} ELSE {})
   \cup (IF LHas(c, "C") THEN
